@@ -329,6 +329,69 @@ func fineExitWhileDelivering(seed uint64) []lib.Case {
 	return []lib.Case{cr.finish("exit-vs-deliver#"+strconv.FormatUint(seed, 10), seed, nil, nil, "kf=K3")}
 }
 
+// ---- graceful Exit while a TOUCH is between its in-flight pop and its push back: the
+// message is in no set when the channel's backlog is written ----
+func fineExitWhileTouching(seed uint64) []lib.Case {
+	cr := newFineCase(seed, 3)
+	cr.opCreateTopic(1)
+	cr.opCreateChan(1, 1)
+	k1 := cr.opConnect(false, false)
+	cr.opSub(k1, 1, 1)
+	cr.opRdy(k1, 1)
+	cr.opPub(1, 1, false, false)
+	tg, id, okh := cr.someHeld(k1)
+	if !okh {
+		return []lib.Case{cr.finish("exit-vs-touch-setup-failed#"+strconv.FormatUint(seed, 10), seed, nil, nil)}
+	}
+	reached, release := nsqd.VerifArmPark("touch:after-pop", 1)
+	now := cr.now()
+	k1.c.write([]byte("TOUCH " + id + "\n"))
+	ok := waitReached(reached, 3*time.Second)
+	cr.tag(fmt.Sprintf("touch-parked=%v", ok))
+	cr.ev(fmt.Sprintf("EOp (OTouch %d %d %s) ROk", k1.k, tg, z(now)))
+	cr.opRestartWith(release)
+	return []lib.Case{cr.finish("exit-vs-touch#"+strconv.FormatUint(seed, 10), seed, nil, nil)}
+}
+
+// ---- Channel.Empty while a TOUCH is between its pop and its push back: the message must
+// not outlive the empty (pushed back after it, it would stay in flight to its consumer and be
+// redelivered when it times out) ----
+func fineEmptyWhileTouching(seed uint64) []lib.Case {
+	cr := newFineCase(seed, 10)
+	cr.opCreateTopic(1)
+	cr.opCreateChan(1, 1)
+	k1 := cr.opConnect(false, false)
+	cr.opSub(k1, 1, 1)
+	cr.opRdy(k1, 1)
+	cr.opPub(1, 1, false, false)
+	tg, id, okh := cr.someHeld(k1)
+	if !okh {
+		return []lib.Case{cr.finish("touch-vs-empty-setup-failed#"+strconv.FormatUint(seed, 10), seed, nil, nil)}
+	}
+	reached, release := nsqd.VerifArmPark("touch:after-pop", 1)
+	now := cr.now()
+	k1.c.write([]byte("TOUCH " + id + "\n"))
+	ok := waitReached(reached, 3*time.Second)
+	cr.tag(fmt.Sprintf("touch-parked=%v", ok))
+	// linearisation recorded: the TOUCH (its pop came first), then the empty
+	cr.ev(fmt.Sprintf("EOp (OTouch %d %d %s) ROk", k1.k, tg, z(now)))
+	done := make(chan int, 1)
+	go func() { done <- cr.post("/channel/empty", url.Values{"topic": {tname(1)}, "channel": {cname(1)}}, nil) }()
+	time.Sleep(150 * time.Millisecond)
+	release()
+	code := <-done
+	cr.ev(fmt.Sprintf("EOp (OEmptyChan 1 1) %s", httpResp(code)))
+	cr.tag("empty-channel")
+	delete(k1.held, tg)
+	cr.nontriv = true
+	cr.after()
+	// whatever outlived the empty is in flight to k1: a scan far ahead brings it back, and
+	// the drain at the end of the case would receive it
+	cr.opScan(1, 1, true, scanAll)
+	cr.opPub(1, 1, false, false)
+	return []lib.Case{cr.finish("touch-vs-empty#"+strconv.FormatUint(seed, 10), seed, nil, nil)}
+}
+
 // ---- graceful Exit while a REQ is between its in-flight pop and its re-queue (C05; the
 // loss this used to cause was repaired: F16) ----
 func fineExitWhileRequeueing(seed uint64) []lib.Case {
@@ -765,6 +828,8 @@ func fineExitWhilePublishing(seed uint64) []lib.Case {
 
 var fineScenarios = map[string]func(uint64) []lib.Case{
 	"exit-vs-pub":                    fineExitWhilePublishing,
+	"exit-vs-touch":                  fineExitWhileTouching,
+	"touch-vs-empty":                 fineEmptyWhileTouching,
 	"two-deletes-on-ephemeral-topic": fineTwoDeletesOnEphemeralTopic,
 	"touch-cap":                      fineTouchCapAfterRedelivery,
 	"pub-vs-topic-delete":            finePubWhileTopicDeleting,
@@ -787,10 +852,10 @@ var fineScenarios = map[string]func(uint64) []lib.Case{
 // which forced interleavings each property's profile runs
 var fineByProfile = map[string][]string{
 	"c01": {"pump-vs-sub", "deliver-vs-disconnect", "touch-cap", "exit-vs-pub"},
-	"c08": {"deliver-vs-empty", "sub-vs-topic-delete", "fin-vs-empty", "empty-vs-wakeup", "scan-vs-empty", "req-vs-empty", "pub-vs-topic-delete", "two-deletes-on-ephemeral-topic"},
+	"c08": {"deliver-vs-empty", "sub-vs-topic-delete", "fin-vs-empty", "empty-vs-wakeup", "scan-vs-empty", "req-vs-empty", "pub-vs-topic-delete", "two-deletes-on-ephemeral-topic", "touch-vs-empty"},
 	"c03": {"fin-vs-empty", "deliver-vs-empty", "pause-vs-pump"},
 	"c13": {"fin-vs-empty", "deliver-vs-empty", "touch-cap"},
 	"c02": {"deliver-vs-disconnect", "touch-then-scan", "touch-cap"},
 	"c04": {"touch-then-scan", "touch-cap"},
-	"c05": {"exit-vs-deliver", "exit-vs-req", "exit-vs-timeout-scan", "exit-vs-deferred-scan", "deliver-vs-disconnect"},
+	"c05": {"exit-vs-deliver", "exit-vs-req", "exit-vs-timeout-scan", "exit-vs-deferred-scan", "deliver-vs-disconnect", "exit-vs-touch"},
 }
